@@ -50,12 +50,15 @@ def fam_fixed_all(rng, tier):
 def fam_v9(rng, tier):
     return gen.fam_stream(rng, n(tier, 200, 2000), versions=(9,), calls=(1, 5)) + gen.fam_redefine(rng, n(tier, 40, 300)) + \
         gen.fam_stream(rng, n(tier, 200, 2000), versions=(9,), calls=(1, 5), lossless=True) + \
-        gen.fam_stream(rng, n(tier, 100, 800), versions=(9,), calls=(1, 4), lossless=True, wild=True)
+        gen.fam_stream(rng, n(tier, 100, 800), versions=(9,), calls=(1, 4), lossless=True, wild=True) + \
+        gen.fam_widths(rng, 9, sample=n(tier, 120, None))
 
 
 def fam_ipfix(rng, tier):
     return gen.fam_stream(rng, n(tier, 200, 2000), versions=(10,), calls=(1, 5)) + gen.fam_redefine(rng, n(tier, 40, 300)) + \
-        gen.fam_stream(rng, n(tier, 300, 3000), versions=(10,), calls=(1, 5), lossless=True, simple_ipfix=True)
+        gen.fam_stream(rng, n(tier, 300, 3000), versions=(10,), calls=(1, 5), lossless=True, simple_ipfix=True) + \
+        gen.fam_stream(rng, n(tier, 100, 800), versions=(10,), calls=(1, 4), lossless=True, simple_ipfix=True, wild=True) + \
+        gen.fam_widths(rng, 10, sample=n(tier, 150, None))
 
 
 def fam_cache(rng, tier):
